@@ -7,7 +7,8 @@
    [spec] and [window_ok] are defined at the top of Proofs.C17. *)
 From Coq Require Import ZArith List Bool.
 Import ListNotations.
-From SCMO Require Import Lib.Tiling Lib.TilingFacts Gen.GenTiling Model.C17 Proofs.C17_shape Proofs.C17.
+From SCMO Require Import Lib.Tiling Lib.TilingFacts Gen.GenTiling Model.C17 Model.C17bed Model.C17x
+     Proofs.C17_shape Proofs.C17 Proofs.C17bed Proofs.C17x.
 Open Scope Z_scope.
 
 (* fill_range(s, e, step) with step > 0: consecutive non-empty pieces from s to e, each at most step long,
@@ -122,3 +123,208 @@ Example C17_bp_chunked_ex :
   /\ bp_chunked (fun j => j) [(0, 6)] 6 = [[(0, 6)]; []].
 Proof. vm_compute. split; reflexivity. Qed.
 Print Assumptions C17_bp_chunked_ex.
+
+(* ====================================================================================================
+   EXTENSION: blacklisted_binning_contigs (Model.C17x: the blacklist dictionary of get_bins_from_bed_dict, the loop
+   over the contig-length list, the contig whitelist, with / without fragment_size), the text of the BED file
+   (Model.C17bed: lines, tokens, int()), and the bp budget rule of bp_chunked.  Hand transcriptions tied to the
+   source by the correspondence check through real BED / BED.gz files, contig lists and BAM headers.
+   name = list Z (a str), bedrec = name * (start, end), grow = name * obin (a yielded row);
+   [collect], [tag_rows], [contig_tiling], [gtiling]/[gspec], [blacklisted], [gpre_prop], the budget rule
+   ([closed_rule], [open_rule], [prefix_of], [proper_prefix]) are defined in Proofs.C17x; [rec_ok], [extra_ok],
+   [print_bed_ext] in Proofs.C17bed.
+   ==================================================================================================== *)
+
+(* blacklist_dict.get(contig, []) after get_bins_from_bed_dict = the records naming that contig, in file order *)
+Theorem C17_bed_dict_get : forall recs c, dict_get (bed_dict recs) c = bed_get recs c.
+Proof. exact dict_get_bed_dict. Qed.
+Print Assumptions C17_bed_dict_get.
+
+Example C17_bed_dict_ex :
+  bed_dict [([98], (2, 3)); ([97], (5, 6)); ([98], (0, 1))] = [([98], [(2, 3); (0, 1)]); ([97], [(5, 6)])]
+  /\ dict_get (bed_dict [([98], (2, 3)); ([97], (5, 6)); ([98], (0, 1))]) [99] = [].
+Proof. vm_compute. split; reflexivity. Qed.
+Print Assumptions C17_bed_dict_ex.
+
+(* STRUCTURE, no hypothesis at all: for every contig list, whitelist, blacklist, bin size and fragment size the
+   result is - contig by contig, in input order, over the whitelisted contigs only - the tiling
+   blacklisted_binning(0, length, bin_size, sorted(records of that contig), fragment_size) tagged with the contig;
+   the exception of one contig's tiling is the exception of the call *)
+Theorem C17_contigs_per_contig : forall contigs bs frag bed wl,
+  blacklisted_binning_contigs contigs bs frag bed wl =
+  collect (map (fun cl => tag_rows (fst cl) (contig_tiling (bed_recs bed) bs frag cl)) (selected wl contigs)).
+Proof. exact bbc_per_contig. Qed.
+Print Assumptions C17_contigs_per_contig.
+
+(* MAIN (genome level): bin size > 0, every selected contig length >= 0, every blacklist record of a selected
+   contig has start <= end, fragment size >= 0: the call returns rows (no exception) that are, per selected
+   contig in input order, a block of rows satisfying the per-contig specification [spec] (C17_tiling) for the
+   region 0..length and the blacklist records of that contig *)
+Theorem C17_contigs_tiling : forall contigs bs frag bed wl, gpre_prop contigs bs frag bed wl ->
+  exists rows, blacklisted_binning_contigs contigs bs frag bed wl = Ok rows /\ gspec contigs bs frag bed wl rows.
+Proof. exact bbc_correct. Qed.
+Print Assumptions C17_contigs_tiling.
+
+Example C17_contigs_ex :
+  blacklisted_binning_contigs [([97], 10); ([98], 7); ([99], 5)] 4 (Some 2)
+    (Some [([98], (2, 3)); ([97], (5, 6)); ([100], (0, 100)); ([97], (0, 1)); ([99], (4, 1))]) (Some [[98]; [97]])
+  = Ok [([97], ((1, 5), Some (1, 5))); ([97], ((6, 10), Some (6, 10)));
+        ([98], ((0, 2), Some (0, 2))); ([98], ((3, 7), Some (3, 7)))]
+  /\ gpre [([97], 10); ([98], 7); ([99], 5)] 4 (Some 2)
+       (Some [([98], (2, 3)); ([97], (5, 6)); ([100], (0, 100)); ([97], (0, 1)); ([99], (4, 1))]) (Some [[98]; [97]]) = true.
+Proof. vm_compute. split; reflexivity. Qed.
+Print Assumptions C17_contigs_ex.
+
+(* consequences of [gspec], stated separately *)
+(* every row belongs to a whitelisted contig of the list; its bin is non-empty, lies inside 0..length of that contig
+   (no bin crosses a contig), is at most bin_size long and contains no blacklisted base of that contig *)
+Theorem C17_genome_bins : forall contigs bs frag bed wl rows, gspec contigs bs frag bed wl rows ->
+  forall r, In r rows -> exists len, In (fst r, len) contigs /\ in_whitelist wl (fst r) = true /\
+    0 <= fst (row_span r) /\ fst (row_span r) < snd (row_span r) /\ snd (row_span r) <= len /\
+    snd (row_span r) - fst (row_span r) <= bs /\
+    forall p, inside p (row_span r) -> ~ blacklisted (bed_recs bed) (fst r) p.
+Proof. exact genome_bins. Qed.
+Print Assumptions C17_genome_bins.
+
+(* with a fragment size every row has a fetch window: it contains the bin, extends it by at most fragment_size,
+   stays inside 0..length of the row's contig and contains no blacklisted base of that contig *)
+Theorem C17_genome_windows : forall contigs bs f bed wl rows, gspec contigs bs (Some f) bed wl rows ->
+  forall r, In r rows -> exists len w, In (fst r, len) contigs /\ snd (snd r) = Some w /\
+    fst w <= fst (row_span r) /\ snd (row_span r) <= snd w /\
+    fst (row_span r) - fst w <= f /\ snd w - snd (row_span r) <= f /\
+    0 <= fst w /\ snd w <= len /\
+    forall p, inside p w -> ~ blacklisted (bed_recs bed) (fst r) p.
+Proof. exact genome_windows. Qed.
+Print Assumptions C17_genome_windows.
+
+(* every non-blacklisted base of every whitelisted contig of the list lies in a bin of that contig ... *)
+Theorem C17_genome_covered : forall contigs bs frag bed wl rows, gspec contigs bs frag bed wl rows ->
+  forall c len p, In (c, len) contigs -> in_whitelist wl c = true -> 0 <= p < len -> ~ blacklisted (bed_recs bed) c p ->
+  exists r, In r rows /\ fst r = c /\ inside p (row_span r).
+Proof. exact genome_covered. Qed.
+Print Assumptions C17_genome_covered.
+
+(* ... and, the contig names being pairwise different (a BAM header, a dict), in exactly one row *)
+Theorem C17_genome_exactly_once : forall contigs bs frag bed wl rows, gspec contigs bs frag bed wl rows ->
+  NoDup (map fst (selected wl contigs)) ->
+  forall r1 r2 p, In r1 rows -> In r2 rows -> fst r1 = fst r2 -> inside p (row_span r1) -> inside p (row_span r2) -> r1 = r2.
+Proof. exact genome_exactly_once. Qed.
+Print Assumptions C17_genome_exactly_once.
+
+(* contigs absent from the whitelist produce nothing *)
+Theorem C17_genome_whitelist : forall contigs bs frag bed w rows, gspec contigs bs frag bed (Some w) rows ->
+  forall r, In r rows -> In (fst r) w.
+Proof. exact genome_whitelist. Qed.
+Print Assumptions C17_genome_whitelist.
+
+(* a blacklist entry on another contig has no effect: two blacklists with the same records on every selected
+   contig give the same result (for all inputs, exceptions included); in particular every record naming a contig
+   that is not selected can be dropped, and no blacklist file is an empty one *)
+Theorem C17_other_contigs_no_effect : forall contigs bs frag bed bed' wl,
+  (forall cl, In cl (selected wl contigs) -> bed_get (bed_recs bed) (fst cl) = bed_get (bed_recs bed') (fst cl)) ->
+  blacklisted_binning_contigs contigs bs frag bed wl = blacklisted_binning_contigs contigs bs frag bed' wl.
+Proof. exact bbc_other_contigs. Qed.
+Print Assumptions C17_other_contigs_no_effect.
+
+Theorem C17_irrelevant_records_dropped : forall contigs bs frag recs wl,
+  blacklisted_binning_contigs contigs bs frag (Some recs) wl =
+  blacklisted_binning_contigs contigs bs frag (Some (filter (relevant wl contigs) recs)) wl.
+Proof. exact bbc_irrelevant_records. Qed.
+Print Assumptions C17_irrelevant_records_dropped.
+
+Example C17_other_contigs_ex :
+  blacklisted_binning_contigs [([97], 10)] 4 None (Some [([98], (0, 9)); ([97], (5, 6)); ([98], (3, 1))]) None
+  = blacklisted_binning_contigs [([97], 10)] 4 None (Some [([97], (5, 6))]) None
+  /\ filter (relevant None [([97], 10)]) [([98], (0, 9)); ([97], (5, 6)); ([98], (3, 1))] = [([97], (5, 6))].
+Proof. vm_compute. split; reflexivity. Qed.
+Print Assumptions C17_other_contigs_ex.
+
+(* the boolean specification run on the implementation's rows by the search (run_C17x mode 2) holds only if [gspec]
+   does, and is exactly [gspec] when the selected contig names are pairwise different (mode 3 = nodupb);
+   [gpre] (mode 1) is exactly the hypothesis of C17_contigs_tiling *)
+Theorem C17_gspecb_sound : forall contigs bs frag bed wl rows,
+  gspecb contigs bs frag bed wl rows = true -> gspec contigs bs frag bed wl rows.
+Proof. exact gspecb_sound. Qed.
+Print Assumptions C17_gspecb_sound.
+
+Theorem C17_gspecb_iff : forall contigs bs frag bed wl rows, nodupb (map fst (selected wl contigs)) = true ->
+  (gspecb contigs bs frag bed wl rows = true <-> gspec contigs bs frag bed wl rows).
+Proof. exact gspecb_iffb. Qed.
+Print Assumptions C17_gspecb_iff.
+
+Theorem C17_gpre_iff : forall contigs bs frag bed wl, gpre contigs bs frag bed wl = true <-> gpre_prop contigs bs frag bed wl.
+Proof. exact gpre_iff. Qed.
+Print Assumptions C17_gpre_iff.
+
+(* ---------------------------------------------------------------------------------------------------- BED text *)
+(* ROUND TRIP: the records read back from a BED text printed from records ('%s\t%d\t%d\n'; names non-empty and free
+   of whitespace, coordinates of at most 4300 digits - int()'s limit) are exactly those records; also with extra
+   columns after the third and with '\r\n' line ends *)
+Theorem C17_bed_round_trip : forall recs, Forall rec_ok recs -> parse_bed (print_bed recs) = Ok recs.
+Proof. exact parse_print_bed. Qed.
+Print Assumptions C17_bed_round_trip.
+
+Theorem C17_bed_round_trip_extra_columns : forall l, Forall (fun p => rec_ok (fst p) /\ extra_ok (fst (snd p))) l ->
+  parse_bed (print_bed_ext l) = Ok (map fst l).
+Proof. exact parse_print_bed_ext. Qed.
+Print Assumptions C17_bed_round_trip_extra_columns.
+
+(* hence blacklisted_binning_contigs on the printed file = blacklisted_binning_contigs on the records *)
+Theorem C17_contigs_from_bed_text : forall contigs bs frag recs wl, Forall rec_ok recs ->
+  blacklisted_binning_contigs_text contigs bs frag (Some (print_bed recs)) wl =
+  blacklisted_binning_contigs contigs bs frag (Some recs) wl.
+Proof. exact bbc_text. Qed.
+Print Assumptions C17_contigs_from_bed_text.
+
+Example C17_bed_text_ex :
+  print_bed [([99; 104; 114; 49], (12, -305)); ([88], (0, 7))]
+  = [99; 104; 114; 49; 9; 49; 50; 9; 45; 51; 48; 53; 10; 88; 9; 48; 9; 55; 10]
+  /\ parse_bed [97; 32; 49; 95; 48; 9; 9; 43; 55; 32; 120; 121; 13; 10; 98; 32; 45; 48; 32; 48; 48; 13] = Ok [([97], (10, 7)); ([98], (0, 0))]
+  /\ parse_bed [97; 32; 49; 10; 10] = Raise 2 /\ parse_bed [97; 9; 49; 9; 50; 10; 10] = Raise 2
+  /\ parse_bed [97; 9; 49; 95; 9; 50; 10] = Raise 2.
+Proof. vm_compute. repeat split. Qed.
+Print Assumptions C17_bed_text_ex.
+
+Example C17_bed_rec_ok_ex : rec_ok ([99; 104; 114; 49], (12, -305)).
+Proof. exact rec_ok_example. Qed.
+Print Assumptions C17_bed_rec_ok_ex.
+
+(* ---------------------------------------------------------------------------------------------------- bp_chunked *)
+(* BUDGET RULE as coded, for every job list and EVERY bp_per_job (also <= 0; C17_bp_chunked_chunks needs 0 < k):
+   a chunk closed by `bp_current >= bp_per_job` is non-empty, its total |end - start| reaches k and no non-empty
+   proper prefix of it does; the chunk yielded after the loop has no non-empty prefix reaching k (it may be empty) *)
+Theorem C17_bp_budget_rule : forall (A : Type) (span : A -> iv) (jobs : list A) (k : Z),
+  Forall (closed_rule span k) (removelast (bp_chunked span jobs k)) /\ open_rule span k (last (bp_chunked span jobs k) []).
+Proof. exact (@bp_chunked_rule). Qed.
+Print Assumptions C17_bp_budget_rule.
+
+(* the rule characterises the result: bp_chunked is the only way to cut the job list into chunks obeying it *)
+Theorem C17_bp_budget_rule_unique : forall (A : Type) (span : A -> iv) (jobs : list A) (k : Z) (cs : list (list A)),
+  cs <> [] -> Forall (closed_rule span k) (removelast cs) -> open_rule span k (last cs []) -> concat cs = jobs ->
+  cs = bp_chunked span jobs k.
+Proof. exact (@bp_chunked_rule_unique). Qed.
+Print Assumptions C17_bp_budget_rule_unique.
+
+Example C17_bp_budget_ex :
+  bp_chunked (fun j => j) [(0, 5); (8, 5); (8, 20); (20, 21)] 6 = [[(0, 5); (8, 5)]; [(8, 20)]; [(20, 21)]]
+  /\ bp_chunked (fun j => j) [(0, 5); (5, 5); (5, 9)] 0 = [[(0, 5)]; [(5, 5)]; [(5, 9)]; []]
+  /\ bp_chunked (fun j => j) [(0, 5); (5, 9)] (-3) = [[(0, 5)]; [(5, 9)]; []].
+Proof. vm_compute. repeat split. Qed.
+Print Assumptions C17_bp_budget_ex.
+
+(* bp_chunked applied to the rows of blacklisted_binning_contigs with bp_per_job k > 0: the chunks concatenate to
+   the rows; every chunk but the last holds at least k and fewer than k + bin_size bases, the last fewer than k *)
+Theorem C17_contigs_bp_chunked : forall contigs bs frag bed wl rows k, gspec contigs bs frag bed wl rows -> 0 < k ->
+  concat (bp_chunked_rows rows k) = rows /\
+  Forall (fun c => k <= bp_sum row_span c < k + bs) (removelast (bp_chunked_rows rows k)) /\
+  bp_sum row_span (last (bp_chunked_rows rows k) []) < k.
+Proof. exact bp_rows_budget. Qed.
+Print Assumptions C17_contigs_bp_chunked.
+
+Example C17_contigs_bp_ex :
+  match blacklisted_binning_contigs [([97], 10); ([98], 7)] 4 None (Some [([97], (5, 6))]) None with
+  | Ok rows => map (map (fun r => (fst r, row_span r))) (bp_chunked_rows rows 6)
+  | Raise _ => []
+  end = [[([97], (0, 2)); ([97], (2, 4)); ([97], (4, 5)); ([97], (6, 10))]; [([98], (0, 3)); ([98], (3, 6))]; [([98], (6, 7))]].
+Proof. vm_compute. reflexivity. Qed.
+Print Assumptions C17_contigs_bp_ex.
